@@ -17,6 +17,7 @@ import (
 	"runtime"
 	"sort"
 	"strings"
+	"sync"
 	"testing"
 
 	"github.com/gagliardetto/solana-go"
@@ -516,6 +517,54 @@ func (w *rpcWorld) getNode(i int, c cid.Cid, section int, alias bool) rpcCall {
 	return call
 }
 
+// getNodesRetained fetches every stored object of epoch i by CID; the returned bytes are compared only after the whole pass
+// and after a concurrent pass over the same objects (bytes handed out for one CID must never turn into another object's)
+func (w *rpcWorld) getNodesRetained(i int) []rpcCall {
+	secs := w.eps[i].built.Sections
+	ep := w.eps[i].epoch
+	kept := make([][]byte, len(secs))
+	errs := make([]error, len(secs))
+	panicked := vt.Guard(func() {
+		for k, sec := range secs {
+			kept[k], errs[k] = ep.GetNodeByCid(context.Background(), sec.Cid)
+		}
+	})
+	bad := make([]bool, len(secs))
+	var wg sync.WaitGroup
+	for g := 0; g < 4; g++ {
+		wg.Add(1)
+		go func(g int) {
+			defer wg.Done()
+			defer func() { recover() }()
+			for k := g % 2; k < len(secs); k += 2 {
+				got, err := ep.GetNodeByCid(context.Background(), secs[k].Cid)
+				if err == nil && !bytes.Equal(got, secs[k].Data) {
+					bad[k] = true
+				}
+			}
+		}(g)
+	}
+	wg.Wait()
+	var calls []rpcCall
+	for k := range secs {
+		call := rpcCall{Op: "getNode", Proto: "epoch", Slot: int64(w.eps[i].built.Spec.Epoch), Sig: k, Sigs: []int{}}
+		switch {
+		case panicked != "":
+			call.Status, call.Detail = "panic", panicked
+		case errs[k] != nil:
+			call.Status, call.Detail = "notfound", errs[k].Error()
+			if len(call.Detail) > 120 {
+				call.Detail = call.Detail[:120]
+			}
+		default:
+			call.Status = "ok"
+			call.Txsame = bytes.Equal(kept[k], secs[k].Data) && !bad[k]
+		}
+		calls = append(calls, call)
+	}
+	return calls
+}
+
 func (w *rpcWorld) multi(loadedIdx []int, conc int) (*MultiEpoch, []uint64) {
 	multi := NewMultiEpoch(&Options{EpochSearchConcurrency: conc})
 	var nums []uint64
@@ -814,9 +863,7 @@ func TestVerifC03(t *testing.T) {
 				if phase == 1 {
 					// warm every cache with the stored objects of the loaded epochs, then ask for the absent keys again
 					for _, i := range sub {
-						for si, sec := range w.eps[i].built.Sections {
-							o.Calls = append(o.Calls, w.getNode(i, sec.Cid, si, false))
-						}
+						o.Calls = append(o.Calls, w.getNodesRetained(i)...)
 						for _, bt := range w.eps[i].built.Blocks {
 							w.jsonGetBlock(h, bt.Spec.Slot, "base64")
 							w.grpcGetBlock(multi, bt.Spec.Slot)
